@@ -913,8 +913,7 @@ fn run_and_judge(prog: &Program, strategy: Strategy, serial: bool, focus: &str) 
     }
 
     // ---- quiescent exactness (only when nothing failed)
-    let hook_clean = hook_findings.is_empty();
-    if !any_error && hook_clean {
+    if !any_error {
         let g = ctx.cas.read_index_state();
         let referenced: BTreeSet<String> = g.iter().map(|(_, i)| rel_path_of(&i.blob_hash.0)).collect();
         let counts: BTreeMap<Hash32, u32> = g.known_blobs().map(|(h, c)| (h.0, *c)).collect();
